@@ -16,24 +16,40 @@ META = {
     "level_text": "Theorems (Coq, unbounded): decode(encode v) = v for every integer (all four width classes incl. the decimal "
                   "INT form, with a proved UnmarshalText(MarshalText z) = z), every string/bytes of length < 2^32, every float, "
                   "every arbitrarily nested immutable value (tree_roundtrip, tuples of any arity; tree_encodable: the encoder "
-                  "accepts them all); heap_roundtrip: for lists, dicts and sets of any size (any number of batches), nested, "
-                  "shared and self-referential, the decoded graph is isomorphic to the source graph (one-to-one object "
-                  "correspondence preserving kinds, contents, order and sharing; cycles included); same_encoding_iso / "
-                  "tree_distinct: values that differ never decode equal; obj_roundtrip: a host-pickled object with immutable "
-                  "constructor arguments. The model is tied to encode.go/decode.go by byte-exact comparison of encodings and "
+                  "accepts them all); encode_terminates: with the fuel enc_fuel = 1 + depth + |heap| * (2 + deepest stored value) "
+                  "the encoder never runs out of fuel on ANY heap (shared and cyclic lists/dicts/sets, dangling references and "
+                  "failing picklers included) in which no object taken by the host pickler is reachable from its own constructor "
+                  "arguments (encode_terminates_no_host: unconditional without host objects); heap_encodable: it returns bytes "
+                  "on every encodable graph; heap_roundtrip: for lists, dicts and sets of any size (any number of batches) AND "
+                  "objects taken by an object-preserving host pickler/unpickler pair, nested, shared and self-referential, the "
+                  "constructor arguments of host objects being arbitrary mutable/shared/cyclic values, the decoded graph is "
+                  "isomorphic to the source graph (one-to-one object correspondence preserving kinds, module/name, contents, "
+                  "order and sharing; cycles included); same_encoding_iso / tree_distinct: values that differ never decode "
+                  "equal; obj_roundtrip: closed form for a host object with immutable arguments. host_selfref_diverges and "
+                  "host_cycle_roundtrip_refuted show that the host_acyclic hypothesis is necessary, with witnesses on which "
+                  "the Go code behaves as the model says (fatal stack overflow; a decoded graph with the object duplicated). "
+                  "The model is tied to encode.go/decode.go by byte-exact comparison of encodings and "
                   "exact comparison of canonical graph dumps on generated values (every width boundary, length class, "
                   "container size class at every nesting position, aliasing patterns, host objects shared/nested).",
     "level_note": "Trusted: Coq kernel; the model's transcription of Go (validated by the correspondence run only); Go's "
                   "hash function for dict/set keys is abstracted to key equality (exact unless unequal tuple keys nested "
-                  "deeper than 10 collide in a 32-bit hash). heap_roundtrip is proved for heaps whose objects the host pickler "
-                  "declines (lists, dicts, sets); host objects are proved only with immutable arguments (obj_roundtrip) and "
-                  "otherwise covered by the correspondence run (shared, nested, holding cyclic lists). Host objects that "
-                  "reach themselves through their own constructor arguments are excluded (the encoder does not terminate on "
-                  "them; dawn's recursionPickler avoids them). Only *List/*Dict among Sequence/IterableMapping hosts. "
-                  "Encoder termination on every well-formed heap is not proved (the theorems take the encoder's output as "
-                  "hypothesis; satisfiable by example and by every correspondence case).",
+                  "deeper than 10 collide in a 32-bit hash). Host objects that reach themselves through their own "
+                  "constructor arguments are excluded by hypothesis (host_acyclic): a directly self-referential one overflows "
+                  "the Go stack, one that reaches itself through a list/dict is encoded without error and decodes to a graph "
+                  "with two copies of it (both proved of the model and reproduced on the code; dawn's recursionPickler "
+                  "avoids them with a placeholder). heap_roundtrip's host part is for the object-preserving pair of the "
+                  "harness (host_pair), not for dawn's envPickler/envUnpickler, which rebuilds functions (C08/C01 territory). "
+                  "Only *List/*Dict among Sequence/IterableMapping hosts. Transitivity of iso is not proved.",
     "design_ref": "DESIGN.md §6 C07",
 }
+
+# Known finding (findings/known_findings.txt): an object taken by the host pickler that is reachable from its own
+# constructor arguments.  The NEWOBJ protocol cannot refer to an object before its arguments exist; the library neither
+# rejects such a value nor breaks the cycle (dawn's recursionPickler does, with a placeholder).
+KNOWN_HOST_CYCLE = "host-object-reaches-itself"
+KNOWN_HOST_CYCLE_CLASS = "known:host-object-reaches-itself"
+# shape 1 (thorough tier only, own process): the object is its own argument -> fatal stack overflow in Encoder.encode
+HOST_SELF_DESC = "O76.48[@0]|=@0"
 
 HDR = "From Dawn Require Import Pickle.Model Pickle.Run.\nOpen Scope list_scope.\nOpen Scope N_scope.\n"
 
@@ -489,6 +505,9 @@ def gen_c07(rng, quick):
     add("alias:obj-nested", [("O", b"m", b"Outer", [R(1), R(2)]), ("O", b"m", b"Inner", [S("a")]), ("L", [R(1)])], R(0))
     add("alias:obj-with-cyclic-list", [("O", b"m", b"n", [R(1)]), ("L", [R(1), I(3)])], T(R(0), R(1)))
     add("alias:list-holding-obj-holding-nothing", [("L", [R(1), R(1)]), ("O", b"", b"", [])], R(0))
+    # directed case of the known finding (shape 2, Props_C07.host_cycle_roundtrip_refuted: cyc_heap): a host object whose
+    # argument is a list containing the object -- O76.48[@1]|L[@0]|=@0 -- encodes without error, decodes to two copies
+    add(KNOWN_HOST_CYCLE_CLASS, [("O", b"v", b"H", [R(1)]), ("L", [R(0)])], R(0))
     add("alias:big-self", [("L", [I(i) for i in range(1000)] + [R(0)] + [I(i) for i in range(1001, 2002)])], R(0))
     # more than 256 memoized objects: LONG_BINGET
     many = [("L", [I(i)]) for i in range(300)]
@@ -631,6 +650,27 @@ def run(ctx):
         run_inner(ctx)
 
 
+def host_selfref_subprocess(ctx):
+    """Shape 1 of the known finding, thorough tier only: a host object that is its own constructor argument, encoded in a
+    process of its own (go test with a timeout).  Props_C07.host_selfref_diverges: the model recurses forever; the code
+    is expected to die with a fatal stack overflow, which is reported under the known-finding key."""
+    rc, o, res, oracles = run_pickle_harness(ctx, ["rt\t0\t" + HOST_SELF_DESC], "c07self")
+    replay = {"oracle": "process-died", "class": KNOWN_HOST_CYCLE_CLASS, "description": HOST_SELF_DESC,
+              "output_tail": o[-1500:],
+              "how": "TestVerifPickle in harness/overlay/pickle/zz_verif_c07_test.go: rt line with this description"}
+    ctx.coverage["correspondence"]["host_selfref_subprocess"] = (
+        "stack overflow" if "stack overflow" in o else "exit %d" % rc)
+    if rc != 0 and ctx.died_on == 0 and "stack overflow" in o:
+        ctx.violation("the process died with a stack overflow while encoding %s" % HOST_SELF_DESC, replay, key=KNOWN_HOST_CYCLE)
+    elif rc != 0:
+        ctx.violation("the harness process failed (exit %d) on %s without a stack overflow" % (rc, HOST_SELF_DESC), replay)
+    else:
+        for f in oracles:
+            if f[2] == "0":
+                ctx.violation("implementation violates C07 oracle %s on %s" % (f[1], HOST_SELF_DESC),
+                              dict(replay, oracle=f[1], result=res.get(0)), key=KNOWN_HOST_CYCLE if f[1] == "encode-failed" else None)
+
+
 def run_inner(ctx):
     ok, rep = ctx.coq_props("Pickle/Props_C07.v")
     proof_broken = not ok
@@ -693,7 +733,17 @@ def run_inner(ctx):
     ctx.coverage["correspondence"]["distribution"] = dist
     ctx.add_samples([[c[0], go_desc(c[1], c[2])[:120], res[i][3][:80]] for i, c in list(enumerate(cases))[::max(1, len(cases) // 5)]])
 
+    unexpected = []     # oracle failures other than the known finding
     for f in oracles:
+        if f[2].isdigit() and f[1] == "roundtrip" and cases[int(f[2])][0] == KNOWN_HOST_CYCLE_CLASS:
+            i = int(f[2])
+            ctx.violation("round-trip oracle on %s: decoded %s" % (go_desc(cases[i][1], cases[i][2]), res[i][4][:200]),
+                          {"oracle": f[1], "class": cases[i][0], "description": go_desc(cases[i][1], cases[i][2]),
+                           "source_dump": res[i][2], "encoding_hex": res[i][3], "decoded": res[i][4],
+                           "how": "TestVerifPickle in harness/overlay/pickle/zz_verif_c07_test.go: rt line with this description"},
+                          key=KNOWN_HOST_CYCLE)
+            continue
+        unexpected.append(f)
         if not f[2].isdigit():
             # oracle-only cases built inside the harness (placeholder pickler: an object memoized twice)
             ctx.violation("implementation violates C07 oracle %s on %s: %s" % (f[1], f[2], f[3] if len(f) > 3 else ""),
@@ -714,7 +764,7 @@ def run_inner(ctx):
     ctx.coverage["correspondence"]["cases"] = len(items)
     ctx.coverage["correspondence"]["mismatches"] = len(mism)
     ctx.log("cases=%d coq-items=%d shards=%d mismatches=%d oracle_failures=%d" % (len(cases), len(items), nshards, len(mism), len(oracles)))
-    if mism and not oracles:
+    if mism and not unexpected:
         ex = []
         for m in mism[:5]:
             c = cases[m // 2]
@@ -724,6 +774,8 @@ def run_inner(ctx):
         ctx.violation("model/implementation disagree on %d cases, e.g. %s %s" % (len(mism), ex[0]["class"], ex[0]["description"][:150]),
                       {"theorem_or_correspondence": "correspondence Pickle/Model.v <-> pickle/encode.go, pickle/decode.go",
                        "disagreeing_cases": ex}, found_input=False)
+    if not ctx.quick():
+        host_selfref_subprocess(ctx)
     if proof_broken and not ctx.violations:
         ctx.violation("a C07 theorem no longer checks", {"theorem_or_correspondence": getattr(ctx, "broken_proof", {})},
                       found_input=False)
